@@ -12,25 +12,25 @@ import (
 )
 
 type HarnessSpec struct {
-	Name        string // entry function in the harness package
-	Prop        string
-	Pkg         string // repo-relative package dir
-	Stubs       map[string]string
-	Unwind      int
-	UnwindFn    map[string]int
-	MaxSteps    int
-	MaxPaths    int
-	Params      map[string]int
-	ThoroughParams map[string]int
-	ReverseMaps bool
-	ExpectReach []string
-	Tiers       string // "" = both, "thorough" = thorough only
-	Desc        string
-	NoPanic     bool // uncaught Go panics are violations (default true unless ExpectPanicOK)
-	PanicOK     bool
-	NoNative    string   // non-empty: why a native replay is impossible (model-only report)
-	ReplayTags  string
-	ReplayEnv   []string
+	Name             string // entry function in the harness package
+	Prop             string
+	Pkg              string // repo-relative package dir
+	Stubs            map[string]string
+	Unwind           int
+	UnwindFn         map[string]int
+	MaxSteps         int
+	MaxPaths         int
+	Params           map[string]int
+	ThoroughParams   map[string]int
+	ReverseMaps      bool
+	ExpectReach      []string
+	Tiers            string // "" = both, "thorough" = thorough only
+	Desc             string
+	NoPanic          bool // uncaught Go panics are violations (default true unless ExpectPanicOK)
+	PanicOK          bool
+	NoNative         string // non-empty: why a native replay is impossible (model-only report)
+	ReplayTags       string
+	ReplayEnv        []string
 	PanicIsViolation bool
 	ReplayRepeat     int
 	Solver           string            // primary solver for this harness (default: the run's)
@@ -38,52 +38,52 @@ type HarnessSpec struct {
 }
 
 type Options struct {
-	Tier         string
-	Workers      int
-	TimeoutMS    int
-	Solver       string
-	CrossSolvers []string
-	CrossEvery   int
-	Seed         int64
-	LogDir       string
-	Verbose      bool
-	OnlyHarness  string
-	known        []KnownFinding
+	Tier              string
+	Workers           int
+	TimeoutMS         int
+	Solver            string
+	CrossSolvers      []string
+	CrossEvery        int
+	Seed              int64
+	LogDir            string
+	Verbose           bool
+	OnlyHarness       string
+	known             []KnownFinding
 	WitnessPerHarness int
 }
 
 type Sample struct {
-	Harness   string `json:"harness"`
-	Label     string `json:"assertion"`
-	Decisions []int  `json:"path_decisions"`
-	Verdict   string `json:"verdict"`
-	QuerySize int    `json:"query_chars"`
+	Harness   string  `json:"harness"`
+	Label     string  `json:"assertion"`
+	Decisions []int   `json:"path_decisions"`
+	Verdict   string  `json:"verdict"`
+	QuerySize int     `json:"query_chars"`
 	Millis    float64 `json:"solver_ms"`
 }
 
 type HarnessResult struct {
-	mu         sync.Mutex
-	Spec       *HarnessSpec
-	Paths      int
-	Outcomes   map[string]int
-	Decisions  int
-	Violations []*Violation
-	Aborts     map[string]int
-	Unknowns   map[string]int
-	Reached    map[string]int
-	Funcs      map[string]int
-	FuncPos    map[string]string
-	Stubs      map[string]int
-	Asserts    map[string]map[string]int
-	Samples    []Sample
-	Steps      int
-	crossN     int
-	CrossDis   []string
-	Wall       time.Duration
-	Truncated  bool
-	LockOrders map[string]bool
-	Assumes    int
-	Witnesses  []*Violation
+	mu          sync.Mutex
+	Spec        *HarnessSpec
+	Paths       int
+	Outcomes    map[string]int
+	Decisions   int
+	Violations  []*Violation
+	Aborts      map[string]int
+	Unknowns    map[string]int
+	Reached     map[string]int
+	Funcs       map[string]int
+	FuncPos     map[string]string
+	Stubs       map[string]int
+	Asserts     map[string]map[string]int
+	Samples     []Sample
+	Steps       int
+	crossN      int
+	CrossDis    []string
+	Wall        time.Duration
+	Truncated   bool
+	LockOrders  map[string]bool
+	Assumes     int
+	Witnesses   []*Violation
 	FeasUnknown int
 	Fallbacks   map[string]int
 }
@@ -217,6 +217,9 @@ func (in *Interp) reset(prefix []int) {
 	in.rtypes = nil
 	in.ordTerms = nil
 	in.blobStrs = nil
+	in.blobByID = nil
+	in.hints = nil
+	in.jsonClassDeclared = false
 	in.lockCount = map[*Value]int{}
 }
 
